@@ -8,7 +8,7 @@ use wasm_encoder as we;
 use wasm_encoder::reencode::{Reencode, RoundtripReencoder};
 use wasmparser::{Operator, WasmFeatures};
 
-use crate::env::{universe as universe_p, padding, walrus_features, const_of, Profile};
+use crate::env::{universe_x, universe as universe_p, padding, walrus_features, const_of, Profile};
 fn universe(b: &[we::Instruction]) -> Vec<u8> { universe_p(Profile::Full, b) }
 
 fn reenc(op: &Operator<'static>) -> Option<we::Instruction<'static>> { RoundtripReencoder.instruction(op.clone()).ok() }
@@ -139,4 +139,58 @@ fn diff_summary(a: &amod::AMod, b: &amod::AMod) -> Vec<&'static str> {
     if a.exports != b.exports { v.push("exports"); } if a.elems != b.elems { v.push("elems"); } if a.data != b.data { v.push("data"); }
     if a.data_count != b.data_count { v.push("data_count"); } if a.code != b.code { v.push("code"); } if a.sections != b.sections { v.push("sections"); }
     v
+}
+
+/// Per-operator sweep of the GC pass: every operator instance the validator accepts, in live position inside the universe module with ONLY the
+/// test function exported, so that each entity an immediate names is kept alive by that operator alone.  parse -> passes::gc::run -> emit must not
+/// panic, the output must validate and the body must carry the same operators (indices renumbered).  Oracle only (classes for C06 / C02).
+pub fn gc_sweep_main(args: &[String]) {
+    let out_dir = &args[0]; let thorough = args.get(1).map(|s| s == "thorough").unwrap_or(false);
+    std::fs::create_dir_all(out_dir).unwrap();
+    let feats = walrus_features(false);
+    let mut viol: Vec<Json> = vec![]; let (mut n_inst, mut n_ops, mut budget) = (0u64, std::collections::BTreeSet::new(), 0u64);
+    let mut with_refs = 0u64;
+    for (name, _proposal) in ops::all_op_names() {
+        if matches!(name, "Block" | "Loop" | "If" | "Else" | "End" | "Br" | "BrIf" | "BrTable" | "Nop" | "Unreachable" | "Return") { continue; }
+        let argspec = ops::op_args(name);
+        let cands: Vec<Vec<ArgVal>> = argspec.iter().map(|(a, t)| ops::candidates(name, a, t, thorough)).collect();
+        if cands.iter().any(|c| c.is_empty()) && !argspec.is_empty() { continue; }
+        let total: usize = cands.iter().map(|c| c.len()).product::<usize>().max(1);
+        let cap = if thorough { 400 } else { 24 };
+        let step = (total + cap - 1) / cap;
+        let mut hint: Option<Vec<u8>> = None; let mut k = 0usize;
+        while k < total {
+            let mut rem = k; let mut vals = vec![];
+            for c in &cands { vals.push(c[rem % c.len()].clone()); rem /= c.len(); }
+            k += step.max(1);
+            let op = match ops::build(name, &vals) { Some(o) => o, None => continue };
+            let ins = match reenc(&op) { Some(i) => i, None => continue };
+            budget += 1;
+            if !catch(|| amod::validate(&universe(&[we::Instruction::Unreachable, ins.clone(), we::Instruction::Unreachable]), feats).is_ok()).unwrap_or(false) { continue; }
+            let operands = match find_operands(&ins, hint.as_ref(), feats, &mut budget) { Some(o) => o, None => continue };
+            hint = Some(operands.clone());
+            let mut body: Vec<we::Instruction> = operands.iter().map(|c| const_of(*c)).collect();
+            body.push(ins.clone()); body.push(we::Instruction::Unreachable);
+            let gc_in = universe_x(Profile::Full, &body, false);
+            if amod::validate(&gc_in, feats).is_err() { continue; }
+            n_inst += 1; n_ops.insert(name);
+            let mut report = |class: &str, what: String, observed: String| {
+                viol.push(Json::obj(vec![("class", Json::s(class)), ("props", Json::s("C06 C02")), ("what", Json::s(what)), ("operator", Json::s(format!("{:?}", op))), ("input", Json::s(hex(&gc_in))), ("observed", Json::s(observed))])); };
+            let names_of = |bytes: &[u8]| -> Result<Vec<&'static str>, String> { let m = amod::decode(bytes)?; let nimp = m.imports.iter().filter(|i| matches!(i.2, amod::AImportKind::Func(_))).count() as u32;
+                let fx = m.exports.iter().find(|e| e.0 == "f1" && e.1 == 0).map(|e| e.2).ok_or("export f1 lost")?; let b = m.code.get((fx - nimp) as usize).ok_or("no body for f1")?; Ok(b.ops.iter().map(|o| o.2).collect()) };
+            match catch(|| walrus::Module::from_buffer(&gc_in).map(|mut m| { let before = (m.tables.iter().count(), m.memories.iter().count(), m.globals.iter().count(), m.funcs.iter().count(), m.elements.iter().count(), m.data.iter().count()); walrus::passes::gc::run(&mut m);
+                    let after = (m.tables.iter().count(), m.memories.iter().count(), m.globals.iter().count(), m.funcs.iter().count(), m.elements.iter().count(), m.data.iter().count()); (m.emit_wasm(), before != after) }).map_err(|e| e.to_string())) {
+                None => report("gc-panics-on-operator", format!("parse, gc, emit panics when operator {} is the only user of the entities it names", name), "panic".into()),
+                Some(Err(e)) => report("walrus-rejects-valid-operator", format!("walrus rejects a valid module (operator {}): {}", name, e), e.clone()),
+                Some(Ok((bytes, _))) => {
+                    if let Err(e) = amod::validate(&bytes, feats) { report("gc-output-invalid-on-operator", format!("after gc the output does not validate when operator {} is the only user of the entities it names: {}", name, e), hex(&bytes)); }
+                    else { match (names_of(&gc_in), names_of(&bytes)) { (Ok(a), Ok(b)) => { if a != b { report("gc-changes-body-on-operator", format!("after gc the body with operator {} differs: {:?} / {:?}", name, a, b), hex(&bytes)); } }
+                        (a, b) => report("gc-output-undecodable-on-operator", format!("operator {}: {:?} {:?}", name, a.err(), b.err()), hex(&bytes)) } }
+                    if !argspec.is_empty() { with_refs += 1; }
+                }
+            }
+        }
+    }
+    let meta = Json::obj(vec![("operator_instances", Json::n(n_inst as f64)), ("distinct_operators", Json::u(n_ops.len())), ("instances_with_immediates", Json::n(with_refs as f64)), ("oracle_violations", Json::Arr(viol))]);
+    std::fs::write(format!("{}/meta.json", out_dir), meta.to_string()).unwrap();
 }
